@@ -39,6 +39,15 @@ PROPS = {
         "assumptions": ["force merges are proved in the model and reached by the sync harness only through hard conflicts"],
         "timeout": {"quick": 2400, "thorough": 14000},
     },
+    "C11": {
+        "lean": ["SosModel.Props.C11"],
+        "runs": [{"crate": "haccount", "domain": "auth"}],
+        "classes": r"^c11-",
+        "trusted_base": ["Ed25519 symbolic: a signature is (key, signed bytes) and verifies iff both match", "translator extracts the route table and, per handler, whether it calls authenticate_endpoint and over which bytes (regex over server.rs and handlers/*.rs)", "axum routing/extractors, TLS and CORS not modelled"],
+        "assumptions": ["websocket upgrade (/sync/changes) and relay are in the generated route table (theorem all_data_routes_authenticated) but not exercised over HTTP by the harness",
+                        "valid-credential requests to destructive endpoints (delete/update account, file upload/move/delete) are not sent"],
+        "timeout": {"quick": 1500, "thorough": 3000},
+    },
     "C12": {
         "lean": ["SosModel.Props.C12"],
         "runs": [{"crate": "haccount", "domain": "folder"}],
@@ -90,10 +99,10 @@ PROPS = {
     },
     "C07": {
         "lean": ["SosModel.Props.C07"],
-        "runs": [{"crate": "hbackend", "domain": "log"}],
+        "runs": [{"crate": "hbackend", "domain": "log"}, {"crate": "haccount", "domain": "epatch"}],
         "classes": r"patch-checked|refused-|rewind-|replace-all|event-patch",
         "trusted_base": [HASH_TB, LOG_TB],
-        "assumptions": ["checkpoints carry one index (all the SDK builds); server_helpers::event_patch is composed in the harness from the real rewind / patch_checked / apply_records in the same order (the real handler is driven in the C09 harness)"],
+        "assumptions": ["checkpoints carry one index (all the SDK builds); the real server_helpers::event_patch is driven on real server storage (domain epatch) and, composed from its primitives, on all log types (domain log)"],
     },
     "C08": {
         "lean": ["SosModel.Props.C08"],
